@@ -230,13 +230,16 @@ Fixpoint master_loop (steps : nat) (fuel : nat) (m : mstate) (stim : list stimul
       end
   end.
 
-Definition simulate_full (fuel steps : nat) (initial : Z) (stim : list stimulus) (t_end : Z) : mstate :=
+(* [pre]: top-level components whose interrupt was published before the scheduler came up: it is
+   replayed during set-up, i.e. they have a wakeup at the initial time before the initial tick *)
+Definition simulate_full (fuel steps : nat) (initial : Z) (pre : list comp) (stim : list stimulus) (t_end : Z) : mstate :=
   let l := level_of top in
   let roots := map fst (l_order l) in
-  let '(s1, _, ob) := tick_level fuel top initial roots [] (log_tick s_init top initial roots) in
+  let s0 := set_wake s_init top (fold_left (fun w c => upd c initial w) pre []) in
+  let '(s1, _, ob) := tick_level fuel top initial roots [] (log_tick s0 top initial roots) in
   master_loop steps fuel {| m_s := s1; m_tprev := initial; m_real := 0; m_now := 0; m_obs := ob;
                             m_ticks := [(initial, 0%Z)] |} stim t_end.
 
 Definition simulate (fuel steps : nat) (initial : Z) (stim : list stimulus) (t_end : Z) : list obs :=
-  m_obs (simulate_full fuel steps initial stim t_end).
+  m_obs (simulate_full fuel steps initial [] stim t_end).
 End Sim.
